@@ -8,3 +8,5 @@ def check(rep, tier):
     core_rules.run(rep, tier, parts=("defvjp", "defvjp_argnum"))
     from contracts import rules_exact
     rules_exact.run(rep, tier, rules_exact.CLAUSE_PROPS["C10"])
+    from contracts import containers
+    containers.run_ground(rep, tier)
